@@ -731,11 +731,16 @@ class Budget:
     def over(self):
         if time.time() - self.t0 > self.seconds:
             if not self.skipped:
-                self.ctx.note("stage time budget of %d s reached; remaining schedules skipped" % self.seconds)
+                self.ctx.note("time budget of %d s reached; remaining cases of this part skipped" % self.seconds)
             self.skipped += 1
             self.ctx.count("skipped_over_budget")
             return True
         return False
+
+    def share(self, parts, weight=1):
+        """a budget for the next one of `parts` remaining parts of this stage (it counts `weight` times)"""
+        left = max(0.0, self.seconds - (time.time() - self.t0))
+        return Budget(self.ctx, left * weight / max(1, parts - 1 + weight))
 
 
 def concurrency(ctx, sats, judge, spy, mode, budget, scale=1):
@@ -745,10 +750,12 @@ def concurrency(ctx, sats, judge, spy, mode, budget, scale=1):
     rng = ctx.rng
     thorough = ctx.tier == "thorough"
 
+    part = [budget]
+
     def go(sat, qs, plan, label, warm=None):
         if len(ctx.violations) + len(ctx.disagreements) > 25:
             return                                              # enough evidence; do not pile up
-        if budget.over():
+        if part[0].over():
             return
         r = run_schedule(sat, qs, plan, spy=spy, warm=warm)
         judge(sat, qs, plan, r, warm)
@@ -756,6 +763,7 @@ def concurrency(ctx, sats, judge, spy, mode, budget, scale=1):
 
     for si, sat in enumerate(sats):
         lead = si == 0
+        part[0] = budget.share(len(sats) - si, 2 if lead else 1)   # every element set gets its share of the stage
         pool = screen(sat, gen_pool(rng))
         qa, qb, qc = orbit_query(rng, True), orbit_query(rng, True), orbit_query(rng, True)
         if any(sat.fresh(q) is None for q in (qa, qb, qc)):
@@ -765,42 +773,42 @@ def concurrency(ctx, sats, judge, spy, mode, budget, scale=1):
         ctx.bump("schedule_points", "of which in its own frame", len(own))
         ctx.bump("store_statement", {"e": "epoch at the node", "n": "get_last_an_time(epoch)"}.get(sat.branch, "?"))
         # --- two get_orbit_number calls: single pre-emption of A by a complete B
-        ks = set(own) | {n}
+        ks = set(own) | {n}                                     # ALL pre-emption points of the own frame
         if mode == "full" and (lead or thorough):
             ks |= set(firsts)
         rest = [k for k in range(n + 1) if k not in ks]
-        ks |= set(sample(rng, rest, ((1500 if lead and mode == "full" else 200) if thorough else 20) * scale))
+        ks |= set(sample(rng, rest, ((1000 if lead and mode == "full" else 150) if thorough else 20) * scale))
         for k in sorted(ks):
             go(sat, [qa, qb], [[0, k], [1, INF]], "orbit|orbit single pre-emption")
         # --- two pre-emptions: A^k B^m A* B*
-        ms = set(range(1, 6)) | (set(own) if thorough else set(sample(rng, own[5:], 4 * scale)))
+        ms = set(range(1, 6)) | (set(own) if thorough and lead else set(sample(rng, own[5:], 4 * scale)))
         double = [[[0, k], [1, m], [0, INF], [1, INF]] for k in own for m in sorted(ms)]
-        if not lead and not thorough:
-            double = [double[i] for i in sample(rng, range(len(double)), 30 * scale)]
+        if not lead:
+            double = [double[i] for i in sample(rng, range(len(double)), (100 if thorough else 30) * scale)]
         for plan in double:
             go(sat, [qa, qb], plan, "orbit|orbit two pre-emptions")
         # --- three calls: A pre-empted, B complete, A a few more lines, C complete, A resumes
         #     (a value A stores late is read by a call that finds the cache complete)
         triple = [[[0, k], [1, INF], [0, m], [2, INF], [0, INF]] for k in own for m in (1, 2, 3)]
-        if not lead and not thorough:
-            triple = [triple[i] for i in sample(rng, range(len(triple)), 20 * scale)]
+        if not lead:
+            triple = [triple[i] for i in sample(rng, range(len(triple)), (40 if thorough else 20) * scale)]
         for plan in triple:
             go(sat, [qa, qb, qc], plan, "orbit|orbit|orbit A^k B* A^m C* A*")
         # --- get_orbit_number against every other kind of query, both roles
         for q in [q for q in pool if not is_orbit(q)]:
-            kk = own if thorough else (own[::2] if lead else sample(rng, own, 5 * scale))
-            if mode == "full" and thorough:
+            kk = own if thorough and lead else (own[::2] if lead or thorough else sample(rng, own, 5 * scale))
+            if mode == "full" and thorough and lead:
                 kk = sorted(set(kk) | set(firsts[::3]))
             for k in kk:
                 go(sat, [qa, q], [[0, k], [1, INF]], "orbit pre-empted by " + q["m"])
             nq, ownq, firstsq, _ = points_of(sat, q, occ=1)
             pts = sorted(set(ownq) | set(firstsq) | {nq})
-            pts = sample(rng, pts, (60 if thorough else ((15 if lead else 5) if mode == "full" else 4)) * scale)
+            pts = sample(rng, pts, ((40 if lead else 15) if thorough else ((15 if lead else 5) if mode == "full" else 4)) * scale)
             for k in pts:
                 go(sat, [qa, q], [[1, k], [0, INF]], q["m"] + " pre-empted by orbit")
         # --- sampled multi-pre-emption schedules; 3 threads in the thorough tier; sometimes on a warmed object
         nthreads = 3 if thorough else 2
-        for _ in range(ctx.size(25, 300) * scale):
+        for _ in range(ctx.size(25, 200) * scale):
             qs = [orbit_query(rng) if rng.random() < 0.7 else rng.choice(pool) for _ in range(nthreads)]
             if any(sat.fresh(q) is None for q in qs):
                 continue
@@ -894,7 +902,7 @@ def correspond(ctx):
     scheduler; sequential histories) must be the model's trace when replayed in the observed thread order; every stored or
     loaded value must be the canonical one."""
     drv = ctx.driver()
-    budget = Budget(ctx, 25 if ctx.tier == "quick" else 240)
+    budget = Budget(ctx, 28 if ctx.tier == "quick" else 240)
     sats = gen_sats(ctx, ctx.size(2, 6))
     lines, expects, cases = [], [], []
 
@@ -937,7 +945,7 @@ def oracle(ctx):
     """The property on the implementation, from the statement alone (no model, no instrumentation of the object)."""
     scale = 4 if ctx.intensified else 1
     quick = ctx.tier == "quick"
-    budget = Budget(ctx, (25 if not ctx.intensified else 50) if quick else 300)
+    budget = Budget(ctx, (18 if not ctx.intensified else 40) if quick else 240)
     sats = gen_sats(ctx, ctx.size(3, 10))
 
     def viol(kind, case, observed, required, site):
@@ -950,7 +958,7 @@ def oracle(ctx):
     # (1) histories
     for sat in sats:
         pool = screen(sat, gen_pool(ctx.rng))
-        for _ in range(ctx.size(40, 600)):
+        for _ in range(ctx.size(40, 400)):
             if budget.over():
                 break
             hist = gen_history(ctx.rng, pool)
@@ -967,8 +975,9 @@ def oracle(ctx):
         judge_results(sat, queries, plan, r, viol, warm)
         ctx.distinct((sat.tle[0][2:7], "s", tuple(qkey(q) for q in queries), json.dumps(plan)))
     concurrency(ctx, sats[:ctx.size(2, 6)], judge, spy=False, mode="full", budget=budget, scale=scale)
-    for sat in sats[:2]:
-        free_running(ctx, sat, viol, ctx.size(10, 200), budget)
+    budget = Budget(ctx, 6 if quick else 60)
+    for si, sat in enumerate(sats[:2]):
+        free_running(ctx, sat, viol, ctx.size(10, 200), budget.share(2 - si))
     drain()
     m = module_state()
     ctx.sample({"tles": [s.tle[0][2:7] for s in sats], "module_level_values_hashed": len(m)})
